@@ -34,6 +34,7 @@ class Outcome:
         self.stats = {}
         self.runs = 1             # simulated runs executed for this case (baseline counted too)
         self.infra = None         # infrastructure problem (server died...) -> not a property verdict
+        self.maxima = {}          # name -> value; the evidence reports the maximum over all cases
         self.case = None          # the case with every relative choice resolved (what replay files store)
 
 
@@ -193,6 +194,7 @@ class Check:
         families = {}
         infra = {}
         stats_sum = {}
+        maxima = {}
         violating = []   # (case, outcome)
         if hasattr(prop, "prepare"):
             prop.prepare(self)
@@ -202,7 +204,7 @@ class Check:
                 rs = run_seed(self.seed, prop.ID, index)
                 cases.append(prop.generate(Rng(rs), self.tier, index, rs))
                 index += 1
-            outcomes = self.execute_cases(cases, deadline=deadline + 30)
+            outcomes = self.execute_cases(cases, deadline=deadline)
             for case, oc in zip(cases, outcomes):
                 if oc is None:
                     continue
@@ -224,6 +226,9 @@ class Check:
                 for k, v in oc.stats.items():
                     if isinstance(v, (int, float)):
                         stats_sum[k] = stats_sum.get(k, 0) + v
+                for k, v in oc.maxima.items():
+                    if v > maxima.get(k, float('-inf')):
+                        maxima[k] = v
                 if oc.nontrivial:
                     distinct.add(oc.trace)
                 if len(samples) < 3 and oc.nontrivial:
@@ -284,6 +289,7 @@ class Check:
             "probes": probes,
             "families": families,
             "totals": {k: v for k, v in stats_sum.items() if k != "sim_us"},
+            "maxima": maxima,
             "variants": variants,
             "components": prop.COMPONENTS,
             "known_findings_hit": known_hit,
